@@ -586,6 +586,11 @@ func init() {
 			if tier == "thorough" {
 				maxN = 300
 			}
+			bdepth := 3
+			if tier == "thorough" {
+				bdepth = 4
+			}
+			sh = append(sh, vShard{Name: "bm25/builders", Run: func(c *vCtx) { vTextBuilderShard(c, bdepth) }})
 			sh = append(sh, vShard{Name: "bm25/sweep", Run: func(c *vCtx) { vC03Sweep(c, maxN) }})
 			sh = append(sh, vShard{Name: "bm25/endurance", Run: func(c *vCtx) { vC03Endurance(c, 70000) }})
 			lg := [][]int{{1500}, {2600}}
